@@ -2300,3 +2300,38 @@ def r8_18(rep):
         rep.check(ok, "union-test-on-referent", "tested on " + why if ok else
                   "`is_union()` is asked of `%s`, the item's own type: a reference to an opaque union is not a union by kind, so its users "
                   "derive traits the emitted Rust union does not have" % why, b.loc(c))
+
+
+@RULES.rule("R8.19", "a fact about the element type is a fact about the array (set-valued analyses that feed the derives)", floor=2)
+def r8_19(rep):
+    """HasFloat (no Eq/Ord/Hash) and HasTypeParameterInArray (no Copy) record per type whether something lies inside it.  An array
+    contains its element: the `TypeKind::Array(t, _)` arm of each `constrain` must look `t` up in the analysis' own state.  Before the
+    fix HasTypeParameterInArray only asked whether the element IS a type parameter, so `struct H { A<int> a[2]; }` derived Copy
+    although `A<int>` (`template<class T> struct A { T m[2]; }`) does not (E0204), and `T m[2][3]` went unnoticed."""
+    import c07
+    n = 0
+    for a in c07.analyses(rep):
+        if a.name not in ("HasFloat", "HasTypeParameterInArray"):
+            continue
+        b = a.methods["constrain"]
+        arms = []
+        for m in b.walk():
+            if m["k"] == "Match":
+                for arm in m["arms"]:
+                    if any(v.endswith("TypeKind::Array") for v in pat_variants(arm["pat"])):
+                        arms.append(arm)
+        rep.need(arms, "%s::constrain: the TypeKind::Array arm" % a.name)
+        for arm in arms:
+            n += 1
+            reads = []
+            for c in b.calls(lambda x: x["k"] == "MCall" and x["name"] in ("contains", "get", "contains_key"), arm["body"]):
+                r = c07.root_field(c["recv"])
+                if r and r.get("adt") == a.adt and r["f"] in a.state:
+                    key = b.canon(c["args"][0], 6)
+                    if "TypeKind::Array.0" in key or "~ir::ty::TypeKind::Array" in key:
+                        reads.append(key)
+            rep.check(bool(reads), "array-forwards-element:%s" % a.name,
+                      "the array arm looks its element up in `%s`" % "/".join(sorted(a.state)) if reads else
+                      "the `TypeKind::Array` arm of %s::constrain never looks the element type up in the analysis' own state: what is known "
+                      "about the element is lost for the array (and for every struct that holds the array)" % a.name, b.loc(arm["body"]))
+    rep.need(n >= 2, "Array arms of HasFloat / HasTypeParameterInArray")
